@@ -16,6 +16,9 @@ Definition str := list N.
 Definition version := (N * (list N * list N))%type.
 Definition val := (version + str)%type.
 
+(** suffix key of a final release *)
+Definition FINAL : list N := [5; 0; 0; 0].
+
 Inductive var :=
 | VVersion (k : N)
 | VString (k : N)
